@@ -36,6 +36,12 @@ func NewSecurityRequirement(k string, v []string, schemes SecuritySchemes) (zero
 	if !ok {
 		return zero, fmt.Errorf("cannot find %q security scheme", k)
 	}
+	switch sch := scheme.V.Value(); {
+	case sch.Type == SecuritySchemeTypeHTTP && sch.Scheme == "bearer":
+	case sch.Type == SecuritySchemeTypeApiKey && (sch.In == SecuritySchemeInHeader || sch.In == SecuritySchemeInQuery):
+	default:
+		return zero, fmt.Errorf("%q security scheme: only http bearer and apiKey in header or query are supported", k)
+	}
 	return SecurityRequirement{
 		Scheme:       scheme.V.Value(),
 		Requirements: v,
